@@ -105,7 +105,7 @@ def check(prog, rep, which, rules=None, keyprefix='parse', selfread=False):
                how='first-subtag state of the dispatcher table')
     # every row of the table must have been exercised by some step (else the comparison is vacuous for it)
     allrows = set((q, r.name) for q, rows in sp[which].items() if isinstance(rows, list) and q != 'disjoint' for r in rows)
-    reach_states = set(q for _, q in tc.pairs)
+    reach_states = set(str(q).rstrip('~') for _, q in tc.pairs)
     missing = sorted((q, n) for (q, n) in allrows if q in reach_states and (q, n) not in tc.rows_hit)
     unreached = sorted(set(q for q, rows in sp[which].items() if isinstance(rows, list) and q != 'disjoint') - reach_states)
     rep.ob('%s:%s:coverage' % (keyprefix, which), 'PARSE-COVER', fn, b['span'], '%s parser: every state and row of the specification table is matched by implementation steps' % which,
